@@ -146,8 +146,10 @@ func CheckMain(args []string) int {
 		// every job has a wall-clock budget, so that a change to /repo that makes an exploration diverge is
 		// reported (UNWIND -> INCONCLUSIVE, or the violations found by the other jobs) instead of hanging
 		x.JobWall = 12 * time.Minute
+		x.CheckDeadline = t0.Add(18 * time.Minute)
 		if *tier == "thorough" {
 			x.JobWall = 45 * time.Minute
+			x.CheckDeadline = t0.Add(150 * time.Minute)
 		}
 		jobs := def.Jobs(*tier)
 		if *only != "" {
